@@ -585,9 +585,9 @@ def cleanup_scripts(jobs):
 # ---------------------------------------------------------------------------
 # FINE model stage (LLFree.tla): exhaustive TLC + step conformance + counterexample replay
 # ---------------------------------------------------------------------------
-FINE_QUICK = {"th4": ["L1", "L2", "L3", "L4", "L5", "L5b", "L6", "L8", "U1", "U2", "U7"], "th1": ["U4", "U4b", "U5", "U5b", "U9", "L7"]}
+FINE_QUICK = {"th4": ["L1", "L2", "L3", "L4", "L5", "L5b", "L6", "L8", "U1", "U2", "U7"], "th1": ["U4", "U4b", "U5", "U5b", "U9", "L7", "U11", "U12"]}
 FINE_THOROUGH = {"th4": ["L1", "L1b", "L2", "L2b", "L3", "L3b", "L4", "L5", "L5b", "L6", "L7", "L8", "U1", "U2", "U3", "U7"],
-                 "th1": ["L1", "L2", "L5", "L6", "L8", "L9", "U1", "U2", "U4", "U4b", "U5", "U5b", "U7", "U8", "U9", "U10"],
+                 "th1": ["L1", "L2", "L5", "L6", "L8", "L9", "U1", "U2", "U4", "U4b", "U5", "U5b", "U6", "U7", "U8", "U9", "U10", "U11", "U12"],
                  "th2": ["L1", "L2", "L3", "L4", "L5", "L6", "L7", "L8", "U1", "U2", "U7"]}
 FINE_INVS = {"C01": ["NoOverlap", "HeldAllocated"], "C03": ["NoPanic", "PutsOk"], "C04": ["QuiescentAccounting", "CounterBound"],
              "C05": ["CrashConsistent", "HeldAllocated"], "C09": ["NoPanic"]}
